@@ -1362,6 +1362,23 @@ func genC19(w *bufio.Writer, seed int64, n int, tier string) {
 		if ci < 5 {
 			kind = ci
 		}
+		if tier == "thorough" && ci >= 5 && ci < 8 {
+			// values around the 10 MB limit through a transaction and a batch (the model holds a value
+			// as a list: a few such cases per run only)
+			fmt.Fprintf(w, "case v%d-%d memsize=100000000 maxmem=1000 msg=big role=none\n", seed, ci)
+			sz := []int{c19DocMaxVal - 1, c19DocMaxVal, c19DocMaxVal + 1}[ci-5]
+			g.begin(false)
+			g.line("tput $0 6c @%d:%d", sz, r.Intn(100))
+			g.line("tget $0 6c")
+			g.line("commit $0")
+			g.line("get 6c")
+			g.line("batch 2 0")
+			g.line("o 0 6d 01")
+			g.line("o 0 6e @%d:%d", sz, r.Intn(100))
+			g.line("scan - - - - 0")
+			fmt.Fprintln(w, "end")
+			continue
+		}
 		switch kind {
 		case 0: // general program with interleaved handles
 			fmt.Fprintf(w, "case g%d-%d %s\n", seed, ci, c19Header(r, "default"))
